@@ -158,6 +158,7 @@ package metadata
 //@   safe
 //@   loop 1:
 //@     invariant byteCounter <= uint32(len(bbRI))
+//@     decreases len(bbRI) - int(byteCounter)
 //@ end
 //@ func getCmi
 //@   props C18
